@@ -350,6 +350,44 @@ def check(repo):
             r3.fail_fn(fn, fn.node, "%s write_service_meta in-place" % name,
                        "%s write_service_meta truncates the committed state file in place (steps %s): a crash between open and "
                        "dump leaves a file the loader unpickles" % (name, desc["steps"]), witness=desc)
+    # a temporary is renamed over the committed file only after it was closed; artifact writers can be re-run after a crash
+    for name, side in (("server", server), ("client", client)):
+        for fname, fn in side.fm.functions.items():
+            for c in ast.walk(fn.node):
+                if not isinstance(c, ast.Call):
+                    continue
+                d = dotted(c.func) or ""
+                last = d.split(".")[-1] if d else (c.func.attr if isinstance(c.func, ast.Attribute) else "")
+                src = None
+                if last in ("replace", "rename") and isinstance(c.func, ast.Attribute) and d not in ("os.replace", "os.rename") and c.args and not isinstance(c.args[0], ast.Constant):
+                    src = c.func.value
+                elif d in ("os.replace", "os.rename", "shutil.move") and len(c.args) >= 2:
+                    src = c.args[0]
+                if src is not None:
+                    from ..model import ancestors as _anc, inline_locals as _il
+                    src_t = unparse(_il(fn.node, src))
+                    for a in _anc(c):
+                        if isinstance(a, (ast.With, ast.AsyncWith)):
+                            for it in a.items:
+                                oc = it.context_expr
+                                if isinstance(oc, ast.Call) and ((dotted(oc.func) == "open" and oc.args and _write_mode(oc) and unparse(_il(fn.node, oc.args[0])) == src_t) or (
+                                        isinstance(oc.func, ast.Attribute) and oc.func.attr == "open" and unparse(_il(fn.node, oc.func.value)) == src_t)):
+                                    r3.fail_fn(fn, c, "%s %s renames an open file" % (name, fname),
+                                               "%s %s renames %s over the committed file inside the `with open(...)` block that is still writing it: the data is only "
+                                               "flushed when the block is left, so a crash right after the rename leaves an empty or partial file under the committed name" % (
+                                                   name, fname, unparse(src)))
+                if (d == "open" or last == "open") and c.args:
+                    mode = None
+                    margs = c.args[1:2] if d == "open" else c.args[0:1]
+                    for m_ in list(margs) + [k.value for k in c.keywords if k.arg == "mode"]:
+                        if isinstance(m_, ast.Constant) and isinstance(m_.value, str):
+                            mode = m_.value
+                    if mode is not None and "x" in mode:
+                        r4.fail_fn(fn, c, "%s %s creates exclusively" % (name, fname),
+                                   "%s %s opens its artifact with mode %r: if the process dies after the file was written but before the state records it, every retry of the "
+                                   "step raises FileExistsError and the workflow can never continue" % (name, fname, mode))
+                    elif mode is not None and any(ch in mode for ch in "wa"):
+                        r4.ok({"side": name, "function": fname, "mode": mode})
     mk = [s for s in server.writers.get("create_sid_folder", []) if s[0] == "mkdir"]
     csf = server.fm.functions.get("create_sid_folder")
     if csf is None:
